@@ -313,6 +313,17 @@ def run(ctx: Ctx) -> None:
                     stmt_key(r), what="authorisation is decided on the importing module instead of the defining one")
     rep.floor("C14.R6", n6, 1)
 
+    # ---- R7 / R8: the boundary is decided from the accepted set and the program alone -----------------------------
+    from .c02 import process_reads, RESOLVER_MODULES
+    from .c03 import global_cache_rule
+    rep.rule("C14.R7", "as C02.R1(process reads): interpreter state (which modules happen to be loaded, ...) read by the resolver stays inside lookups: "
+                       "whether a reachable name of an accepted module resolves must not depend on it")
+    n7 = process_reads(ctx, "C14.R7", RESOLVER_MODULES)
+    rep.floor("C14.R7", n7, 1)
+    rep.rule("C14.R8", "as C03.R3(i): no process-wide cache of resolutions / authorisation answers is written and served to later evaluations "
+                       "(the accepted set can change between two evaluations of one process)")
+    global_cache_rule(ctx, "C14.R8")
+
 
 def _ancestors_if(f: Func, n: ast.AST) -> List[ast.If]:
     out = []
